@@ -797,8 +797,9 @@ def scalars(field, zero_ok=True):
     pal = [2.0, -1.0, 0.5, -3.0, 1.0, 1.5]
     if zero_ok:
         pal = pal + [0.0]
-    re = st.sampled_from(pal) | st.floats(-4, 4).map(
-        lambda v: float(np.float32(v)) or 1.0)
+    # generic values on a 1/64 grid (exact in float32, no subnormals)
+    re = st.sampled_from(pal) | st.integers(-256, 256).map(
+        lambda k: k / 64.0 or 1.0)
     if field == 'real':
         return re
     cpal = [1j, 1 + 1j, 2 - 1j, -0.5 + 2j, -1j, 3.0 + 0j, 0.5 - 1.5j]
@@ -1071,7 +1072,13 @@ def fam_pointwise(draw):
         # PointwiseNorm.derivative itself raises (slicing creates unequal
         # array-weighted spaces) - a derivative defect outside C05
         e = 'pwinner'
-    op = {'e': e, 'vf': vf, 'w': draw(pweights(n))}
+    # operator weights: default (None), generic, or explicitly all ones on a
+    # weighted vector field space
+    opw = draw(st.one_of(
+        pweights(n), pweights(n),
+        st.just({'type': 'const', 'value': 1.0}),
+        st.just({'type': 'array', 'data': [1.0] * n})))
+    op = {'e': e, 'vf': vf, 'w': opw}
     if e in ('pwinner', 'pwinner_adj'):
         op['v'] = draw(seeds())
     if e == 'pwnorm_deriv':
